@@ -124,7 +124,31 @@ func H_C06_StateLevel() {
 		armed = t1.min
 	}
 
-	switch vPick(3) {
+	switch vPick(4) {
+	case 3:
+		// a stale claim about the suspect (older incarnation; any kind, any sender) leaves the running suspicion
+		// alone, and a genuine confirmation arriving after it still counts and the deadline still holds
+		vAssume(inc > 0)
+		older := vU32()
+		vAssume(older < inc)
+		switch vPick(3) {
+		case 0:
+			m.deadNode(&dead{Incarnation: older, Node: vPeerA, From: []string{vPeerB, vPeerA, "n3"}[vPick(3)]})
+		case 1:
+			m.suspectNode(&suspect{Incarnation: older, Node: vPeerA, From: "n3"})
+		case 2:
+			m.aliveNode(&alive{Incarnation: older, Node: vPeerA, Addr: a.Addr, Port: a.Port}, nil, false)
+		}
+		vAssert(m.nodeTimers[vPeerA] == t1 && a.State == StateSuspect && a.Incarnation == inc, "c06.state.stale-claim-keeps-suspicion")
+		vAssert(t1.n.Load() == 0 && len(f.ev.log) == 0, "c06.state.stale-claim-not-a-confirmation")
+		m.suspectNode(&suspect{Incarnation: inc, Node: vPeerA, From: "n3"})
+		if wantK >= 1 {
+			vAssert(t1.n.Load() == 1, "c06.state.confirmation-after-stale-claim-counts")
+		}
+		vAssert(f.vIsMember(vPeerA), "c06.state.still-member-after-confirmation")
+		vAdvance(armed)
+		vAssert(a.State == StateDead, "c06.state.dead-by-max-after-stale-claim")
+		vCover("c06.state.stale-claim")
 	case 0:
 		// end-to-end bounds without confirmations: member until the armed deadline, dead at it, on our own evidence
 		vAdvance(armed - 1)
